@@ -117,6 +117,7 @@ func init() {
 		var heldFrame, heldCopy []byte
 		var heldCase c01Case
 		chain := jt808.NewJTMessage()
+		chainBuf := make([]byte, 0, 8192) // ... fed from one read buffer that is overwritten by every next frame (a server's read loop)
 		var chainPrev c01Case
 		err := readND(a[0], func(i int, raw []byte) error {
 			var c c01Case
@@ -132,15 +133,22 @@ func init() {
 			if p == "" {
 				var again []byte
 				var derr error
+				var cv DecView
 				pn := protect(func() {
-					derr = chain.Decode(exact(c.Src))
+					chainBuf = append(chainBuf[:0], c.Src...)
+					derr = chain.Decode(chainBuf)
 					if derr == nil {
+						cv = viewOf(chain)
+						cv.Ok = true
 						chain.Header.ReplyID = uint16(c.ID)
 						chain.Header.PlatformSerialNumber = uint16(c.Pser)
 						again = chain.Header.Encode(exact(c.Body))
 					}
 				})
-				if pn != "" || derr != nil || !bytes.Equal(again, got) {
+				if pn == "" && derr == nil && !sameView(cv, sv) {
+					out.put(mismatch{"reused-message-decodes-differently " + cls, fmt.Sprintf("reused %+v fresh %+v", cv, sv), []c01Case{chainPrev, c}})
+					chain = jt808.NewJTMessage()
+				} else if pn != "" || derr != nil || !bytes.Equal(again, got) {
 					out.put(mismatch{"reused-message-differs " + cls, fmt.Sprintf("panic=%q err=%v: reused %x fresh %x", pn, derr, again, got), []c01Case{chainPrev, c}})
 					chain = jt808.NewJTMessage()
 				}
@@ -370,6 +378,7 @@ func init() {
 		classes := map[string]int{}
 		var samples []any
 		chain2 := jt808.NewJTMessage()
+		chain2Buf := make([]byte, 0, 8192) // fed from one read buffer that every next frame overwrites
 		var chain2Prev c02Case
 		var heldMsg *jt808.JTMessage
 		var heldBody []byte
@@ -387,7 +396,8 @@ func init() {
 			// the same frame through one long-lived JTMessage that has decoded every earlier frame and encoded a reply after each
 			{
 				var rerr error
-				pn := protect(func() { rerr = chain2.Decode(exact(c.F)) })
+				chain2Buf = append(chain2Buf[:0], c.F...)
+				pn := protect(func() { rerr = chain2.Decode(chain2Buf) })
 				rv := DecView{Ok: rerr == nil && pn == ""}
 				if rv.Ok {
 					rv = viewOf(chain2)
@@ -494,6 +504,15 @@ func init() {
 			}
 			d, _ := decodeView(f)
 			out.put(c02Case{F: f, D: d, Kind: kind})
+		}
+		// bodies longer than the ten-bit length field can say: the declared length is the actual length modulo 1024 (also modulo
+		// 65536): valid checksum, valid escaping, and still not a well-formed frame
+		for _, extra := range []int{1024, 64512, 65536, 66560, 131072} {
+			h := randHdr(r)
+			h.body = bytes.Repeat([]byte{0x41}, 5+extra)
+			f := buildFrame(h)
+			d, _ := decodeView(f)
+			out.put(c02Case{F: f, D: d, Kind: "long"})
 		}
 	}
 }
